@@ -1000,7 +1000,31 @@ func alwaysRecordsError(fn *ssa.Function) bool {
 		}
 		return false
 	}
-	_, escapes := reachesReturnAvoiding(fn.Blocks[0], 0, isErrAppend, nil)
+	// report-once idiom: `if flag { report }; flag = false` — the edge on which the flag shows that
+	// a problem has been dealt with before is excused when the function itself stores that value
+	reportOnce := func(from, to *ssa.BasicBlock) bool {
+		iff, ok := lastIf(from)
+		if !ok || from.Succs[0] == from.Succs[1] {
+			return false
+		}
+		cond, inv := stripBool(iff.Cond)
+		ld, ok := cond.(*ssa.UnOp)
+		if !ok || ld.Op != token.MUL {
+			return false
+		}
+		val := (from.Succs[0] == to) != inv // the flag's value on this edge
+		for _, b := range fn.Blocks {
+			for _, ins := range b.Instrs {
+				if st, ok := ins.(*ssa.Store); ok && (st.Addr == ld.X || sameAddr(st.Addr, ld.X)) {
+					if cn, ok := st.Val.(*ssa.Const); ok && cn.Value != nil && (cn.Value.String() == "true") == val {
+						return true
+					}
+				}
+			}
+		}
+		return false
+	}
+	_, escapes := reachesReturnAvoiding(fn.Blocks[0], 0, isErrAppend, reportOnce)
 	if escapes {
 		recordsErrMemo[fn] = 3
 		return false
